@@ -1,4 +1,5 @@
 import itertools
+import math
 from typing import Any, Optional, Tuple
 
 from pdfminer.utils import Matrix, Rect
@@ -16,10 +17,15 @@ def safe_int(o: Any) -> Optional[int]:
 
 def safe_float(o: Any) -> Optional[float]:
     try:
-        return float(o)
+        f = float(o)
     except (TypeError, ValueError, OverflowError):
         # OverflowError: an integer of hundreds of digits
         return None
+    if not math.isfinite(f):
+        # a real of hundreds of digits is read as infinity: not a number that
+        # a width, an operand or a matrix can do anything with
+        return None
+    return f
 
 
 def safe_matrix(a: Any, b: Any, c: Any, d: Any, e: Any, f: Any) -> Optional[Matrix]:
